@@ -94,6 +94,9 @@ def check_pair(acc, pendulum, za, ia, zb, ib, clone_b=False, native=True):
              ("abs", lambda: abs(b - a), abs(diff)),
              ("absolute=True", lambda: pendulum.interval(a, b, absolute=True), abs(diff)),
              ("diff-default", lambda: a.diff(b), abs(diff)),
+             # the flag is read for its truth value (1 for True), whichever endpoint comes first
+             ("absolute=1", lambda: pendulum.interval(b, a, absolute=1), abs(diff)), ("Interval(a,b,1)", lambda: pendulum.Interval(a, b, 1), abs(diff)),
+             ("diff(abs=1)", lambda: b.diff(a, 1), abs(diff)), ("diff(abs=0)", lambda: b.diff(a, 0), -diff),
              # abs() of intervals that are ALREADY absolute (whichever endpoint was given first), and twice
              ("abs-of-diff-default", lambda: abs(a.diff(b)), abs(diff)), ("abs-of-diff-default-rev", lambda: abs(b.diff(a)), abs(diff)),
              ("abs-of-absolute", lambda: abs(pendulum.interval(a, b, absolute=True)), abs(diff)),
